@@ -173,6 +173,19 @@ def generate(rng, tier):
             for t in sorted({fa.s, str(fa), rand_text(rng)}):
                 yield ["withstr", a, t, la]
             yield ["repr", a, la]
+    # beyond the small scope: long runs (blank ones of every kind of whitespace included) and many runs
+    for L in (17, 20, 40, 100, 300):
+        for t in (" " * L, "\t" * L, "\n" * L, "\u00a0" * L, "\u3000" * L, "\t\t" + " " * (L - 2), " " * (L - 1) + "\u2009",
+                  "a" * L, ("ab '\"\\" * L)[:L], "\x0b\x0c\x1c\x1d\x1e\x1f\x85\u2028\u2029"[:9] * (L // 9 + 1)):
+            for a in ([0] * 8, [2, 0, 1, 0, 0, 0, 0, 0]):
+                yield ["repr", [[t, list(a)]], "long-run"]
+                yield ["repr", [["x", [0, 5, 0, 0, 0, 1, 0, 0]], [t, list(a)], ["", list(a)]], "long-run"]
+        yield ["pair", [[" " * L, [0] * 8]], [["\t" * L, [0] * 8]], "long/long"]
+        yield ["pair", [["a" * L, [3, 0, 0, 0, 0, 0, 0, 0]]], [["a" * (L - 1), [3, 0, 0, 0, 0, 0, 0, 0]], ["a", [3, 0, 0, 0, 0, 0, 0, 0]]], "long/split"]
+    many = [[c, [1 + i % 8, 0, i % 2, 0, 0, 0, 0, 0]] for i, c in enumerate("abcdefghijklmnopqrstuvwxyz0123456789")]
+    yield ["repr", many, "many-runs"]
+    yield ["pair", many, many[:20] + many[20:], "many/many"]
+    yield ["pair", many, many[:-1], "many/fewer"]
     # the documented examples and a few fixed corner cases
     yield ["repr", [["hello", [2, 5, 0, 0, 0, 0, 0, 0]], [" ", [0] * 8], ["there", [5, 2, 0, 0, 0, 0, 0, 0]],
                     ["!", [3, 0, 0, 0, 0, 0, 0, 0]]], "docstring"]
